@@ -8,7 +8,7 @@
    the empirical collision integrals (positive-definiteness of the Galerkin matrices is not proved). *)
 From Coq Require Import Reals List.
 Import ListNotations.
-From MPC Require Import Num Species RInst StatMech RVec Radiation GenSpecies GenRadiation GenTransport Transport C14_proofs.
+From MPC Require Import Num Species RInst StatMech RVec Radiation GenSpecies GenRadiation GenTransport Transport C12_split C14_proofs C14_quadratic.
 Open Scope R_scope.
 
 Theorem C14_emission_positive : forall (U : Units R) (T : R) (heavy : list (R * species R)),
@@ -41,6 +41,21 @@ Proof.
 Qed.
 Print Assumptions C14_viscosity_single_species_textbook.
 
+Theorem C14_viscosity_single_species_positive :
+  forall (U : Units R) (m n T Q11 Q12 Q13 Q22 Q23 Q24 Q33 b0 b1 : R),
+  0 < m -> 0 < n -> 0 < k_b U * T -> 0 < Q22 -> 0 < b11 Q22 * b22 Q22 Q23 Q24 - b12 Q22 Q23 ^ 2 ->
+  qhat00 RNum (fun _ _ => Q11) (fun _ _ => Q22) (fun _ => m) 1 (fun _ => n) 0 0 * b0
+  + qhat01 RNum (fun _ _ => Q11) (fun _ _ => Q12) (fun _ _ => Q22) (fun _ _ => Q23) (fun _ => m) 1 (fun _ => n) 0 0 * b1
+    = visc_rhs0 RNum U T (fun _ => m) (fun _ => n) 0 ->
+  m / m * qhat01 RNum (fun _ _ => Q11) (fun _ _ => Q12) (fun _ _ => Q22) (fun _ _ => Q23) (fun _ => m) 1 (fun _ => n) 0 0 * b0
+  + qhat11 RNum (fun _ _ => Q11) (fun _ _ => Q12) (fun _ _ => Q13) (fun _ _ => Q22) (fun _ _ => Q23) (fun _ _ => Q24) (fun _ _ => Q33)
+           (fun _ => m) 1 (fun _ => n) 0 0 * b1 = 0 ->
+  0 < visc_value RNum U T (fun _ => n) 1 (fun _ => b0).
+Proof.
+  intros U m n T Q11 Q12 Q13 Q22 Q23 Q24 Q33 b0 b1 Hm Hn HkT HQ HD.
+  exact (viscosity_single_species_positive U m n T Q11 Q12 Q13 Q22 Q23 Q24 Q33 Hm Hn HkT b0 b1 HQ HD).
+Qed.
+
 (* sign of the electrical conductivity: non-negative when no listed species moves against its charge sign ... *)
 Theorem C14_sigma_nonneg : forall (U : Units R) (rho ntot T : R) (masses nd charges : nat -> R) (nb : nat) (De : nat -> R),
   0 < rho -> 0 <= ntot -> 0 < k_b U * T ->
@@ -71,3 +86,18 @@ Theorem C14_kappa_positive_refuted : forall U : Units R,
     kappa_total RNum U false 1 1 1 0 masses nd hv DT (fun _ => 0) D 2 kdash = kdash.
 Proof. exact kappa_negative_possible. Qed.
 Print Assumptions C14_kappa_positive_refuted.
+
+(* general mixtures: the viscosity of ANY solution of the system is a positive constant times the quadratic form of the
+   assembled qhat matrix at that solution; its positivity is exactly positivity of that form (which holds for genuine
+   bracket integrals; for the fitted collision integrals it is validated over the window, not proved) *)
+Theorem C14_viscosity_is_quadratic_form : forall (U : Units R) (T : R) (masses nd : nat -> R) (nb : nat) (Q : @qints R),
+  (forall i, 0 < masses i) -> 0 < k_b U * T -> forall x : nat -> nat -> R,
+  visc_rows U T masses nd nb Q x ->
+  visc_value RNum U T nd nb (x 0%nat) = k_b U * T / (10 * sqrt (2 * PI / (k_b U * T))) * qform masses nd nb Q x /\
+  (0 < visc_value RNum U T nd nb (x 0%nat) <-> 0 < qform masses nd nb Q x).
+Proof.
+  intros U T masses nd nb Q Hm HkT x Hsys. split.
+  - apply viscosity_is_quadratic_form; assumption.
+  - apply (viscosity_positive_iff_form_positive U T masses nd nb Q Hm HkT x Hsys).
+Qed.
+Print Assumptions C14_viscosity_is_quadratic_form.
